@@ -3,6 +3,7 @@
   Property theorems only; helper lemmas live in Kitoken/Proofs/ProcessLemmas.lean.
 -/
 import Kitoken.Proofs.ProcessLemmas
+import Kitoken.Proofs.NormalizeLemmas
 namespace Kitoken.C13
 
 open Kitoken
@@ -218,5 +219,44 @@ theorem process_order (p : Processing) (ps : List Processing) (ts : List Id) (h 
   | cons a t => rfl
 
 theorem process_empty (steps : List Processing) : configProcess steps [] = .ok [] := rfl
+
+/-! ### Byte clean-up steps applied after decoding (src/config/decoding.rs) -/
+
+open Kitoken.Spec Kitoken.Utf8 in
+/-- Strip never panics on arbitrary bytes, valid UTF-8 or not (holds after the F11 repair: an invalid
+    byte decodes lossily to U+FFFD but is not counted as that character). -/
+theorem decode_strip_total (ch : Char) (l r : Nat) (text : Bytes) : (decodeStrip ch l r text).isPanic = false :=
+  Kitoken.Proofs.Normalize.decodeStrip_total ch l r text
+
+/-- No sequence of byte clean-up steps panics on any byte string (regex replacement is external and
+    returns a string or is absent from the oracle table). -/
+theorem decode_steps_total (ext : DecodeExt) (steps : List Decoding) (text : Bytes) (r : Res Bytes)
+    (h : configDecode ext steps text = some r) : r.isPanic = false :=
+  Kitoken.Proofs.Normalize.configDecode_total ext steps text r h
+
+open Kitoken.Spec Kitoken.Utf8 in
+/-- On valid UTF-8 the byte steps have exactly their documented character-level effect. -/
+theorem decode_strip_chars (ch : Char) (l r : Nat) (cs : List Char) :
+    decodeStrip ch l r (encodeChars cs) = .ok (encodeChars (stripSpec ch l r cs)) :=
+  Kitoken.Proofs.Normalize.strip_chars ch l r cs
+
+open Kitoken.Spec Kitoken.Utf8 in
+theorem decode_extend_chars (ch : Char) (l r : Nat) (pad : Bool) (cs : List Char) :
+    decodeExtend ch l r pad (encodeChars cs) = encodeChars (extendSpec ch l r pad cs) :=
+  Kitoken.Proofs.Normalize.extend_chars ch l r pad cs
+
+open Kitoken.Spec Kitoken.Utf8 in
+theorem decode_collapse_chars (ch : Char) (cs : List Char) :
+    decodeCollapse ch (encodeChars cs) = encodeChars (collapseChars ch false cs) :=
+  Kitoken.Proofs.Normalize.collapse_chars ch cs
+
+/-- Literal replacement on bytes: every leftmost non-overlapping occurrence (an empty pattern matches
+    between all bytes, as bstr's `replace`). -/
+theorem decode_replace_literal (ext : DecodeExt) (s rep text : Bytes) :
+    decodeReplace ext (.string s) rep text = some (replaceAll s rep text) := rfl
+
+/-- The pre-repair Strip panics on an invalid byte when stripping U+FFFD; the repaired one does not. -/
+example : (decodeStripOld (Char.ofNat 0xFFFD) 1 0 [0xFF]).isPanic = true :=
+  Kitoken.Proofs.Normalize.decodeStripOld_panics
 
 end Kitoken.C13
